@@ -272,3 +272,320 @@ def rt_adversarial2(req):
 
 
 RT['adversarial2'] = rt_adversarial2
+
+
+# ----------------------------------------------------------------------------- C11: scopes inside annotations; own annotations spelled alike
+_SCOPE_SRC = '''
+import typing, functools
+LIMIT = 5
+ENABLED = ('a', 'b')
+SHAPES = {'a': int, 'b': str, 'c': bytes}
+class Check:
+    def __init__(self, fn): self.fn = fn
+def genexp(x: typing.Union[tuple(SHAPES[n] for n in ENABLED)], *args, **kwargs) -> typing.Tuple[tuple(SHAPES[n] for n in ENABLED)]:
+    return target(*args, **kwargs)
+def listcomp(x: typing.Tuple[tuple([SHAPES[n] for n in ENABLED])] = None): return x
+def lam(x: typing.Annotated[int, Check(lambda v: v < LIMIT)] = 0): return x
+def target(p: typing.Optional[SHAPES['c']] = None, *, q: typing.Annotated[str, Check(lambda v: len(v) < LIMIT)] = ''): return p
+'''
+
+_LIB_SRC = '''
+import functools
+class Result: pass
+def deco(fn):
+    def wrapper(*args, **kwargs) -> Result:
+        return fn(*args, **kwargs)
+    # a decorator that keeps the wrapper's OWN annotations: only the name and __wrapped__ are taken from fn
+    return functools.wraps(fn, assigned=('__name__', '__qualname__', '__doc__'), updated=())(wrapper)
+'''
+_APP_SRC = '''
+class Result: pass
+def compute(x, y=2) -> Result:
+    return Result()
+'''
+
+
+def rt_annot_scopes(req):
+    """C11: (1) a postponed annotation is an expression: generator expressions, comprehensions and lambdas inside it resolve the
+    module's names exactly as in the eagerly compiled twin; (2) a wrapper that declares __wrapped__ but has annotations of its
+    own, spelled like those of the function it wraps (both `-> Result`, two modules, two classes), keeps ITS annotation"""
+    from . import progs
+    problems = []
+    mods = {}
+    loaded = []
+    try:
+        for post in (False, True):
+            head = 'from __future__ import annotations\n' if post else ''
+            m, fn = progs.load_module(head + _SCOPE_SRC)
+            loaded.append(fn)
+            mods[post] = m
+        with warnings.catch_warnings():
+            warnings.simplefilter('ignore')
+            for fname, op in (('genexp', 'signature'), ('genexp', 'auto=False'), ('listcomp', 'signature'), ('lam', 'signature'), ('target', 'signature'),
+                              ('genexp', 'mask'), ('target', 'partial'), ('genexp', 'merge')):
+                vals = {}
+                for post in (False, True):
+                    f = getattr(mods[post], fname)
+                    try:
+                        if op == 'signature':
+                            sg = sigtools.signature(f)
+                        elif op == 'auto=False':
+                            from sigtools import specifiers
+                            sg = specifiers.signature(f, auto=False)
+                        elif op == 'mask':
+                            sg = signatures.mask(signatures.signature(f), 0, hide_varargs=True)
+                        elif op == 'partial':
+                            sg = signatures.signature(functools.partial(f, q='zz'))
+                        else:
+                            sg = signatures.merge(signatures.signature(f), signatures.signature(f))
+                        ev = sg.evaluated()
+                        desc = []
+
+                        def dsc(a, empty):
+                            # Annotated[...] carries freshly made objects: describe it by its origin and by what its checks answer
+                            if a is empty:
+                                return None
+                            if hasattr(a, '__metadata__'):
+                                return (repr(a.__origin__), [mm.fn(3 if a.__origin__ is int else 'abc') for mm in a.__metadata__])
+                            return repr(a)
+                        for q in list(ev.parameters.values()):
+                            desc.append((q.name, dsc(q.annotation, q.empty)))
+                            sv = sg.parameters[q.name].upgraded_annotation.source_value()
+                            if dsc(sv, q.empty) != dsc(q.annotation, q.empty):
+                                desc.append((q.name, 'source_value differs', dsc(sv, q.empty)))
+                        desc.append(('return', None if ev.return_annotation is ev.empty else repr(ev.return_annotation)))
+                        vals[post] = desc
+                    except Exception as e:  # noqa
+                        vals[post] = 'raised %s: %s' % (type(e).__name__, str(e)[:80])
+                if vals[False] != vals[True]:
+                    problems.append('annotation-scope: %s of %s: the eagerly compiled twin gives %s, the postponed one %s' % (op, fname, vals[False], vals[True]))
+        # (2)
+        for post_lib in (False, True):
+            for post_app in (False, True):
+                lib, f1 = progs.load_module(('from __future__ import annotations\n' if post_lib else '') + _LIB_SRC)
+                app, f2 = progs.load_module(('from __future__ import annotations\n' if post_app else '') + _APP_SRC)
+                loaded += [f1, f2]
+                w = lib.deco(app.compute)
+                with warnings.catch_warnings():
+                    warnings.simplefilter('ignore')
+                    for label, get in (('sigtools.signature', sigtools.signature), ('signatures.signature', signatures.signature)):
+                        try:
+                            sg = get(w)
+                            r = sg.evaluated().return_annotation
+                            sv = sg.upgraded_return_annotation.source_value()
+                        except Exception as e:  # noqa
+                            problems.append('own-annotation-raises: %s(wrapper).evaluated() raised %s: %s (lib postponed=%s, app postponed=%s)' % (
+                                label, type(e).__name__, e, post_lib, post_app))
+                            continue
+                        if label == 'signatures.signature':
+                            continue      # plain retrieval follows __wrapped__: the wrapped function's own `Result`
+                        if r is not lib.Result or sv is not lib.Result:
+                            problems.append('own-annotation-reassigned: the wrapper declares `-> Result` in ITS module; %s(wrapper) evaluates it to %r '
+                                            '(source_value %r), the class of %s (lib postponed=%s, app postponed=%s)' % (
+                                                label, r, sv, 'the wrapped function\'s module' if r is app.Result else '?', post_lib, post_app))
+    finally:
+        for fn in loaded:
+            progs.unload(fn)
+    return ('ok', tuple(problems[:4]), 'probed')
+
+
+RT['annot_scopes'] = rt_annot_scopes
+
+
+# ----------------------------------------------------------------------------- C07: retrieval from a thread that did not import sigtools
+def rt_other_thread(req):
+    """what a retrieval answers (or raises) does not depend on the thread asking: a fresh thread gets the answer of the main one"""
+    import threading
+    from sigtools import specifiers
+
+    def g(a, b=1, *, c=2): return a
+    def fwd(x, *args, **kwargs): return g(*args, **kwargs)
+
+    class K:
+        def __init__(self, u, v=1): pass
+        def m(self, *args, **kwargs): return g(*args, **kwargs)
+    objs = [g, fwd, K, K(1).m, functools.partial(fwd, 1), max, 42, len]
+    problems = []
+
+    def outcomes():
+        out = []
+        for o in objs:
+            for nm, fn in (('sigtools.signature', sigtools.signature), ('signature(auto=False)', lambda x: specifiers.signature(x, auto=False)),
+                           ('signatures.signature', signatures.signature)):
+                try:
+                    with warnings.catch_warnings():
+                        warnings.simplefilter('ignore')
+                        out.append((nm, 'ok', str(fn(o))))
+                except BaseException as e:  # noqa
+                    out.append((nm, 'raised', type(e).__name__))
+        return out
+    main = outcomes()
+    box = []
+    for round_ in range(2):
+        t = threading.Thread(target=lambda: box.append(outcomes()))
+        t.start()
+        t.join(60)
+        if t.is_alive() or len(box) <= round_:
+            problems.append('other-thread-no-answer: a fresh thread did not finish its retrievals')
+            break
+        for (nm, a, b), (_, c, d), o in zip(main, box[round_], [o for o in objs for _ in range(3)]):
+            if (a, b) != (c, d):
+                problems.append('other-thread-differs: %s(%r) answers %s %s in the main thread, %s %s in a fresh thread' % (nm, o, a, b, c, d))
+                break
+    return ('ok', tuple(problems[:3]), 'probed')
+
+
+RT['other_thread'] = rt_other_thread
+
+
+# ----------------------------------------------------------------------------- C13 / C18: a wrapper above classmethod / staticmethod, looked up on classes and instances
+def rt_owner_binding(req):
+    """a wrapper_decorator / decorator wrapper sitting ABOVE classmethod or staticmethod: looked up on the class, a subclass, an
+    instance of either, in any order and repeatedly, it is bound to the right owner, returns what the hand-written composition
+    returns and shows one and the same signature"""
+    from sigtools import wrappers
+    problems = []
+
+    @wrappers.wrapper_decorator
+    def tagged(wrapped, *args, **kwargs):
+        return ('t', wrapped(*args, **kwargs))
+
+    @wrappers.decorator
+    def tagged_d(wrapped, *args, **kwargs):
+        return ('t', wrapped(*args, **kwargs))
+
+    for label, deco in (('wrapper_decorator', tagged), ('decorator', tagged_d)):
+        class Base(object):
+            @deco
+            @classmethod
+            def make(cls, a, b=1):
+                return (cls.__name__, a, b)
+
+            @deco
+            @staticmethod
+            def stat(a, b=1):
+                return ('s', a, b)
+
+            @deco
+            def inst(self, a, b=1):
+                return (type(self).__name__, a, b)
+
+        class Sub(Base):
+            pass
+        sigs = set()
+        for rnd in range(2):
+            for via, owner in (('Base', Base), ('Base()', Base()), ('Sub', Sub), ('Sub()', Sub()), ('Base', Base)):
+                oname = 'Sub' if 'Sub' in via else 'Base'
+                for attr, want in (('make', ('t', (oname, 5, 1))), ('stat', ('t', ('s', 5, 1)))) + \
+                        ((('inst', ('t', (oname, 5, 1))),) if via.endswith('()') else ()):
+                    try:
+                        with warnings.catch_warnings():
+                            warnings.simplefilter('ignore')
+                            m = getattr(owner, attr)
+                            sg = str(sigtools.signature(m))
+                            got = m(5)
+                    except Exception as e:  # noqa
+                        problems.append('owner-binding-raises: %s.%s (a %s wrapper above %s) raised %s: %s' % (
+                            via, attr, label, {'make': 'classmethod', 'stat': 'staticmethod', 'inst': 'a plain method'}[attr], type(e).__name__, str(e)[:80]))
+                        continue
+                    if got != want:
+                        problems.append('owner-binding-result: %s.%s(5) returned %r, the composition returns %r (%s)' % (via, attr, got, want, label))
+                    sigs.add((attr, sg))
+        for attr in ('make', 'stat', 'inst'):
+            seen = sorted(s for a, s in sigs if a == attr)
+            if len(seen) > 1 or (seen and seen[0] != '(a, b=1)'):
+                problems.append('owner-binding-signature: %s looked up on classes and instances shows the signatures %s (%s); calling it takes (a, b=1)' % (attr, seen, label))
+    return ('ok', tuple(problems[:4]), 'probed')
+
+
+RT['owner_binding'] = rt_owner_binding
+
+
+# ----------------------------------------------------------------------------- C07: the fallback chain of forged_signature vs Model/Chain.lean
+OPS = {}
+_CHAIN_EXC = None
+
+
+def _chain_exc():
+    global _CHAIN_EXC
+    if _CHAIN_EXC is None:
+        from sigtools import _autoforwards
+        _CHAIN_EXC = {'valueError': ValueError, 'typeError': TypeError, 'keyError': KeyError, 'attributeError': AttributeError,
+                      'indexError': IndexError, 'unknownForwards': _autoforwards.UnknownForwards}
+    return _CHAIN_EXC
+
+
+def chain_line(req):
+    _, auto, f, h, a, p, stage = req
+    if stage == 'ast' and h == 'EunknownForwards':
+        h = 'U'          # autoforwards_ast raising UnknownForwards is the caught outcome `U` of the model
+    return 'chain %d %s %s %s %s' % (auto, f, h, a, p)
+
+
+def real_chain(req):
+    """forged_signature with its four components replaced by stubs that return / raise what the request says:
+    which component decides, which exceptions are caught, which escape"""
+    from sigtools import _specifiers, _autoforwards, _signatures
+    _, auto, f, h, a, p, stage = req
+    EXC = _chain_exc()
+    REV = {v: k for k, v in EXC.items()}
+
+    def mk(k):
+        return _signatures.UpgradedSignature._upgrade(inspect.Signature(return_annotation=k), None, {})
+
+    def act(tok):
+        if tok == 'N':
+            return lambda: None
+        if tok == 'U':
+            def r():
+                raise EXC['unknownForwards']()
+            return r
+        if tok[0] == 'S':
+            return lambda: mk(int(tok[1:]))
+
+        def r2():
+            raise EXC[tok[1:]]()
+        return r2
+
+    class O(object):
+        def __call__(self):
+            pass
+    o = O()
+    astact = None
+    if f != '-':
+        fa = act(f)
+        o._sigtools__forger = lambda obj: fa()
+    if h != '-':
+        if h == 'N':
+            o._sigtools__autoforwards_hint = lambda s: None
+        elif h[0] == 'E' and stage == 'callable':
+            ha = act(h)
+            o._sigtools__autoforwards_hint = lambda s: ha()
+        else:
+            o._sigtools__autoforwards_hint = lambda s: (1, 2, 3)
+            astact = act(h)
+    aa, pa = act(a), act(p)
+    saved = (_autoforwards.autoforwards, _autoforwards.autoforwards_ast, _signatures.signature)
+    _autoforwards.autoforwards = lambda *x, **k: aa()
+    _autoforwards.autoforwards_ast = lambda *x, **k: astact()
+    _signatures.signature = lambda *x, **k: pa()
+    try:
+        try:
+            with warnings.catch_warnings():
+                warnings.simplefilter('ignore')
+                r = _specifiers.forged_signature(o, auto=bool(auto))
+            return ('ok', r.return_annotation)
+        except Exception as e:  # noqa
+            return ('err', REV.get(type(e), type(e).__name__))
+    finally:
+        _autoforwards.autoforwards, _autoforwards.autoforwards_ast, _signatures.signature = saved
+
+
+OPS['chain'] = real_chain
+
+
+def parse_chain(ml):
+    toks = ml.split()
+    if toks[0] == 'ok':
+        return ('ok', int(toks[1]))
+    return ('err', toks[1])
